@@ -947,6 +947,20 @@ def seed_classes(chk, ps, quick):
                 if got.shape != (N, N) or not float(numpy.abs(got.ravel() - want).max()) <= TOL * scale * mat.shape[1]:
                     chk.broke("correspondence", "%s(seed=%s) is not numpy's normal stream of that seed through the probed linear map at %s "
                               "(the seed is not handed to numpy.random.default_rng as given?)" % (fname, fn_, tag))
+                # "for fixed draws": a seed fixes the draws — the same seed again gives the same screen, and with another r0 the
+                # screen scaled by (r0'/r0)^(-5/6), whatever the seed's value (0 included) or form
+                if not isinstance(form, numpy.random.BitGenerator):
+                    cc = 1.7
+                    again = numpy.asarray(f(*_args(c), seed=form), dtype=float)
+                    scaled = numpy.asarray(f(*_args(c, r0=cc * c["r0"]), seed=form), dtype=float)
+                    amp = float(numpy.abs(got).max()) + 1e-300
+                    if again.shape != got.shape or not numpy.array_equal(again, got):
+                        chk.fail("seed-class:not-fixed:%s" % fname, "%s(…, seed=%s) called twice gives two different screens (max |Δ| = %.3g of %.3g) "
+                                 "at %s: the seed does not fix the draws" % (fname, fn_, float(numpy.abs(again - got).max()) if again.shape == got.shape
+                                                                            else float("nan"), amp, tag), dict(c, fn=fname, seed=fn_))
+                    elif scaled.shape != got.shape or not float(numpy.abs(scaled - cc ** (-5.0 / 6.0) * got).max()) <= TOL * amp:
+                        chk.fail("r0-scaling:seed-class:%s" % fname, "%s(r0=%g·r0, seed=%s) ≠ %g^(-5/6)·%s(r0, seed=%s) at %s"
+                                 % (fname, cc, fn_, cc, fname, fn_, tag), dict(c, fn=fname, seed=fn_, c=cc))
     for fname in ("ft_phase_screen", "ft_sh_phase_screen"):
         f = getattr(ps, fname)
         for form, kw in (("seed=None", dict(seed=None)), ("no seed argument", {})):
